@@ -262,6 +262,36 @@ func (c *cmp) bindCheck(f *File, ast *parser.Thrift, site, where string, want *V
 			c.add(site+".extra.enum-member", where, "identifier %s: want member %q got %q", want.Ident, want.ToEnumVal.Name, ex.Name)
 			return
 		}
+		if want.ViaType != nil && want.ViaType.File == f {
+			// The selector is a typedef of this file.  AST.thrift documents Sel as "the selector"
+			// (as written) and Index as "the include index": Sel is resolved where it is written,
+			// and Index names the include through which its typedef chain leaves this file
+			// (-1 when the chain stays local).  Exact values beyond that are not prescribed.
+			if ex.Sel != want.ViaType.Name {
+				c.add(site+".extra.typedef-sel", where, "identifier %s: want Sel=%q got %q", want.Ident, want.ViaType.Name, ex.Sel)
+			}
+			wantIdx := int32(-1)
+			for t := want.ViaType.Type; t != nil && t.Ref != nil; {
+				if t.Ref.File != f {
+					wantIdx = int32(f.IncludeIndex(t.Ref.File))
+					for i, inc := range f.Includes {
+						if inc.File.Prefix() == t.Ref.File.Prefix() && inc.File.Find(t.Ref.Name) != nil {
+							wantIdx = int32(i)
+							break
+						}
+					}
+					break
+				}
+				if t.Ref.Kind != KTypedef {
+					break
+				}
+				t = t.Ref.Type
+			}
+			if ex.Index != wantIdx {
+				c.add(site+".extra.typedef-sel-index", where, "identifier %s: selector chain leaves the file through include %d, Extra.Index=%d", want.Ident, wantIdx, ex.Index)
+			}
+			return
+		}
 		// Sel looked up in the target file, typedefs followed, must be the intended enum
 		en, ok := derefEnum(target, tf, ex.Sel, 0)
 		if !ok {
